@@ -9,6 +9,7 @@ import (
 	"fmt"
 	"runtime"
 	"strconv"
+	"sync/atomic"
 	"testing"
 
 	"pgregory.net/rapid"
@@ -46,6 +47,41 @@ func memLoop(sub Subject, sc *memScenario, absent [][]byte, i0, n int) {
 			mix = []string{"q", "o", "c", "w"}[(i/64)%4]
 		}
 		switch mix {
+		case "s": // lookups only (hits and misses)
+			if i%3 == 2 {
+				v, _ := sub.Search(absent[i%len(absent)])
+				sink += v
+			} else {
+				v, _ := sub.Search(k)
+				sink += v
+			}
+		case "i": // sequences and extremes only
+			switch i % 7 {
+			case 0:
+				consume(sub.All(), 16)
+			case 1:
+				consume(sub.Backward(), 16)
+			case 2:
+				consume(sub.TopK(5), 5)
+			case 3:
+				consume(sub.BottomK(5), 5)
+			case 4:
+				_, v, _ := sub.Minimum()
+				sink += v
+			case 5:
+				if sc.kind.HasRange() {
+					consume(sub.Range(k, keys[(i+3)%nk]), 1<<30)
+				} else {
+					_, v, _ := sub.Maximum()
+					sink += v
+				}
+			case 6:
+				if sc.kind.HasPrefix() {
+					consume(sub.Prefix(k[:len(k)/2]), 1<<30)
+				} else {
+					sink += sub.Size()
+				}
+			}
 		case "q":
 			switch i % 11 {
 			case 0, 1, 2:
@@ -194,10 +230,14 @@ func memTrace(sc *memScenario, msg string) *Trace {
 	return tr
 }
 
+var c17Essential = [][2]string{{"collation", "q"}, {"collation", "s"}, {"collation", "i"}, {"alpha", "c"}, {"unsigned", "c"}, {"signed", "c"},
+	{"float", "c"}, {"compound", "c"}, {"collation", "c"}, {"alpha", "s"}, {"alpha", "w"}, {"compound", "m"}, {"alpha", "i"}, {"collation", "o"}}
+
 func TestC17(t *testing.T) {
+	var caseNo atomic.Int32
 	stats.Property = "C17"
 	replayRegressions(t, "C17")
-	stats.Rule = "rapid draws a scenario: tree kind, key set (50..2000 keys from the kind's universe) and operation mix (q: every read-only method incl. absent probes and failed deletes; o: overwrites; c: delete/re-insert churn; w: grow/shrink waves; m: mixed); the loop runs 8N operations and the live heap after two forced GCs is sampled at 0, N, 2N, 4N and 8N operations (violation: total growth > 1 MiB with growth > 256 KiB in at least two of the four intervals), then all keys are deleted and the tree may retain at most 256 KiB; " +
+	stats.Rule = "rapid draws a scenario: tree kind, key set (50..2000 keys from the kind's universe) and operation mix (s: lookups only, hits and misses; i: sequences and extremes only; q: every read-only method incl. absent probes and failed deletes; o: overwrites; c: delete/re-insert churn; w: grow/shrink waves; m: mixed); the loop runs 8N operations and the live heap after two forced GCs is sampled at 0, N, 2N, 4N and 8N operations (violation: total growth > 1 MiB with growth > 256 KiB in at least two of the four intervals), then all keys are deleted and the tree may retain at most 256 KiB; " +
 		"non-trivial = the tree was non-empty during the loop and all 8N operations executed; distinct by (kind, mix, key-set hash)"
 	n := 100000
 	if *flagTier == "thorough" {
@@ -206,14 +246,15 @@ func TestC17(t *testing.T) {
 	n = int(float64(n) * *flagScale)
 	rapid.Check(t, func(rt *rapid.T) {
 		var kind Kind
-		// collation x queries and every family x churn are essential: give them weight
-		switch weighted(rt, []int{3, 5}, "c17sel") {
-		case 0:
-			kind = drawKind(rt, []string{"collation"})
-		default:
-			kind = drawKind(rt, allFamilies)
+		var mix string
+		// the essential (family, mix) combinations come first, then free draws
+		if i := int(caseNo.Add(1)) - 1; i < len(c17Essential) {
+			kind = drawKind(rt, []string{c17Essential[i][0]})
+			mix = c17Essential[i][1]
+		} else {
+			kind = drawKind(rt, append([]string{"collation", "collation"}, allFamilies...))
+			mix = pick(rt, []string{"q", "s", "s", "i", "o", "c", "c", "w", "m"}, "mix")
 		}
-		mix := pick(rt, []string{"q", "q", "o", "c", "c", "w", "m"}, "mix")
 		u := drawUniverse(rt, kind, nil)
 		want := pick(rt, []int{50, 200, 600, 2000}, "nkeys")
 		m := NewModel(kind)
